@@ -1,1 +1,36 @@
-(* placeholder *) From Klepto Require Import CacheCore.
+(* C18  Introspection coherence: key(), lookup() and __cache__() agree with calls. *)
+From Klepto Require Import OMap CacheDict CacheCore CoreInv CoreStep CoreSize CoreExn.
+
+(* key()/lookup()/info()/archived() never change anything: contents, eviction order, statistics *)
+Theorem C18_queries_change_nothing : forall c s o, is_query o = true -> fst (step c s o) = s.
+Proof. exact query_is_identity. Qed.
+
+(* lookup(args) = the value resident under key(args), KeyError when none is resident *)
+Theorem C18_lookup : forall c s k,
+  snd (step c s (Lookup (KOk k))) = match get (smem s) k with Some v => OVal v | None => ORaise EKeyError 0 end.
+Proof. exact lookup_spec. Qed.
+
+Theorem C18_key : forall c s k, step c s (KeyOf (KOk k)) = (s, OKey k).
+Proof. exact keyof_spec. Qed.
+
+(* erasing every introspection call from any history changes nothing *)
+Theorem C18_erasable : forall c ops s, run c s (filter (fun o => negb (is_query o)) ops) = run c s ops.
+Proof. exact queries_erasable. Qed.
+
+(* after a call returned v, the entry resident under its key (if any) holds exactly v *)
+Theorem C18_call_then_lookup : forall c s k fr orc v ev w, c_alg c <> NO ->
+  snd (call c s (KOk k) fr orc) = ORet v ev ->
+  get (smem (fst (call c s (KOk k) fr orc))) k = Some w -> w = v.
+Proof. exact call_then_lookup. Qed.
+
+Example C18_witness :
+  let c := mkCfg LFU 3 false false false in
+  let s := run c (init_state (mkC [] ANull ANull)) [Call (KOk 1) (Ret 11) 0; Call (KOk 2) (Ret 12) 0] in
+  snd (step c s (Lookup (KOk 2))) = OVal 12 /\ snd (step c s (Lookup (KOk 5))) = ORaise EKeyError 0.
+Proof. cbv zeta. split; vm_compute; reflexivity. Qed.
+
+Print Assumptions C18_queries_change_nothing.
+Print Assumptions C18_lookup.
+Print Assumptions C18_key.
+Print Assumptions C18_erasable.
+Print Assumptions C18_call_then_lookup.
